@@ -184,3 +184,25 @@ impl fmt::Display for CrsqlSeq {
         self.0.fmt(f)
     }
 }
+
+/// Validates a collection length read from the wire against what is left of the input and returns
+/// the capacity to pre-allocate for it, so that a corrupt or hostile length field cannot make a
+/// decoder reserve memory unrelated to the size of the message.
+pub(crate) fn prealloc_for<'a, C, R>(
+    reader: &R,
+    len: usize,
+    min_item_bytes: usize,
+) -> Result<usize, C::Error>
+where
+    C: speedy::Context,
+    R: speedy::Reader<'a, C>,
+{
+    const MAX_PREALLOC: usize = 1024;
+
+    match len.checked_mul(min_item_bytes) {
+        Some(required) if reader.can_read_at_least(required) != Some(false) => {
+            Ok(len.min(MAX_PREALLOC))
+        }
+        _ => Err(speedy::Error::custom("collection length exceeds the size of the input").into()),
+    }
+}
